@@ -263,6 +263,8 @@ theorem MM.inv_step (wl : WL) (c0 : Cfg) (m : MM) (o : Op) (h : MM.Inv wl c0 m) 
   | register f => exact ⟨fun hd => by simp [MM.step] at hd, h.2⟩
   | modelsChanged f => exact ⟨fun hd => h.1 hd, h.2⟩
   | read => exact MM.inv_read wl c0 m h
+  | observe => exact h
+  | restore => exact h
 
 theorem MM.inv_run (wl : WL) (c0 : Cfg) (ops : List Op) :
     ∀ m, MM.Inv wl c0 m → MM.Inv wl c0 (m.run wl ops) := by
@@ -303,6 +305,8 @@ theorem MM.inv2_step (wl : WL) (c0 : Cfg) (m : MM) (o : Op) (h : MM.Inv2 c0 m)
   | setter f => exact h
   | register f => exact h
   | modelsChanged f => exact h
+  | observe => exact h
+  | restore => exact h
   | read =>
     obtain ⟨hi, hn⟩ := hc
     simp only [MM.step, MM.read_cfg] at hi hn
